@@ -15,6 +15,14 @@ Theorem C04_signed_acceptance_partial : forall z bl en hl raw,
 Proof. exact int_raw_roundtrip. Qed.
 Print Assumptions C04_signed_acceptance_partial.
 
+(* the case the hypothesis 0 < bl leaves out: without any bit, zero is the only signed value the encoder accepts
+   (before the fix commit "a signed integer of zero bits accepted -1" the value -1 was accepted and dropped) *)
+Theorem C04_signed_zero_bits : forall z en hl raw,
+  (en = None \/ en = Some Enc2C \/ en = Some Enc1C \/ en = Some EncSM) ->
+  raw_of (VInt z) 0 BInt en hl = Ok raw -> z = 0 /\ raw = 0.
+Proof. exact int_raw_zero_bits. Qed.
+Print Assumptions C04_signed_zero_bits.
+
 Theorem C04_rejections_are_odx_errors : forall v bl bt en hl e,
   bt <> BF32 -> bt <> BF64 -> raw_of v bl bt en hl = Err e -> e = ERej.
 Proof. exact raw_of_rejects_properly. Qed.
